@@ -322,6 +322,60 @@ case_sds(long idx, void *ctx)
     mc_count("sds_cases", 1);
 }
 
+/* record variables written by SD (two unlimited data sets with different record counts, optionally extended in a second
+   session) must be seen by DFSD with their own record count and values */
+static void
+case_recvar(long idx, void *ctx)
+{
+    (void)ctx;
+    static const int CNT[][2] = {{5, 2}, {2, 5}, {3, 3}, {1, 4}};
+    int nt = (int)(idx % NNT), c = (int)(idx / NNT % 4), second = (int)(idx / (NNT * 4) % 2);
+    int cfg[4] = {6, nt, c, second};
+    mc_set_config(cfg, 4, "family=recvar");
+    setcase("two unlimited data sets of type %d written by SD with %d and %d records%s, read by DFSD", (int)NTS[nt], CNT[c][0], CNT[c][1], second ? ", the first one extended by one record in a second session" : "");
+    vfs_remove_file(PATH);
+    sds_t a, b;
+    memset(&a, 0, sizeof a);
+    memset(&b, 0, sizeof b);
+    a.nt = b.nt = NTS[nt];
+    a.rank = b.rank = 2;
+    a.dims[0] = CNT[c][0] + (second ? 1 : 0), a.dims[1] = 4;
+    b.dims[0] = CNT[c][1], b.dims[1] = 3;
+    fill_values(a.nt, nelem(2, a.dims), a.data, 3);
+    fill_values(b.nt, nelem(2, b.dims), b.data, 8);
+    int32 S = SDstart(PATH, DFACC_CREATE), st[2] = {0, 0};
+    int32 da[2] = {SD_UNLIMITED, 4}, db[2] = {SD_UNLIMITED, 3}, ca[2] = {CNT[c][0], 4}, cb[2] = {CNT[c][1], 3};
+    int32 ia = SDcreate(S, "rec_a", a.nt, 2, da), ib = SDcreate(S, "rec_b", b.nt, 2, db);
+    int   rc = (ia == FAIL || ib == FAIL) ? -1 : 0;
+    if (!rc && (SDwritedata(ia, st, NULL, ca, a.data) == FAIL || SDwritedata(ib, st, NULL, cb, b.data) == FAIL))
+        rc = -1;
+    SDendaccess(ia);
+    SDendaccess(ib);
+    if (SDend(S) == FAIL)
+        rc = -1;
+    if (!rc && second) {
+        S  = SDstart(PATH, DFACC_RDWR);
+        ia = SDselect(S, SDnametoindex(S, "rec_a"));
+        int32 s2[2] = {CNT[c][0], 0}, c2[2] = {1, 4};
+        if (SDwritedata(ia, s2, NULL, c2, a.data + (long)CNT[c][0] * 4 * DFKNTsize(a.nt | DFNT_NATIVE)) == FAIL)
+            rc = -1;
+        SDendaccess(ia);
+        if (SDend(S) == FAIL)
+            rc = -1;
+    }
+    if (rc) {
+        mc_violation("recvar:sd-write-failed", "%s: SD refused a legal record variable", g_case);
+        return;
+    }
+    snprintf(g_sigsuffix, sizeof g_sigsuffix, second ? "@record-variable-extended-in-a-later-session" : "@record-variable");
+    sd_check(&a, 0, "writer's own view");
+    sd_check(&b, 1, "writer's own view");
+    dfsd_check(&a, 0, "other interface", 0);
+    dfsd_check(&b, 1, "other interface", 0);
+    mc_outcome(mc_hash(mc_hash_i(MC_H0, 600 + c * 2 + second), a.data, sizeof a.data));
+    mc_count("recvar_cases", 1);
+}
+
 /* ================================================================== images: DFR8 / DF24 <-> GR */
 /* canonical image: pix[y][x][c] */
 static void
@@ -1082,9 +1136,9 @@ typedef struct {
     long n;
 } fam_t;
 static fam_t FAM[] = {
-    {"sds", case_sds, 2 * NSHAPE * NNT * 8 * 2}, {"img", case_img, 4 * 4 * 3 * 2}, {"ann", case_ann, 2 * 4 * 3}, {"nc", case_nc, 2 * 5 * 2 * 2}, {"vview", case_vview, 12}, {"legacy", case_legacy, 0},
+    {"sds", case_sds, 2 * NSHAPE * NNT * 8 * 2}, {"img", case_img, 4 * 4 * 3 * 2}, {"ann", case_ann, 2 * 4 * 3}, {"nc", case_nc, 2 * 5 * 2 * 2}, {"vview", case_vview, 12}, {"legacy", case_legacy, 0}, {"recvar", case_recvar, NNT * 4 * 2},
 };
-#define NFAM 6
+#define NFAM 7
 
 int
 C15_main(const char *tier, const char *replay)
@@ -1111,6 +1165,7 @@ C15_main(const char *tier, const char *replay)
             case 3: idx = cfg[1] + 2 * (cfg[2] + 5 * (cfg[3] + 2 * (cfg[4] - 1))); break;
             case 4: idx = cfg[1] + 4 * (cfg[2] - 1); break;
             case 5: idx = cfg[1]; break;
+            case 6: idx = cfg[1] + (long)NNT * (cfg[2] + 4 * cfg[3]); break;
         }
         FAM[cfg[0]].fn(idx, NULL);
         printf("replay C15: %s\n", g_case);
